@@ -1113,6 +1113,14 @@ class FortranBackend(BaseBackend):
         # define shape
         shape = self._get_shape(v.shape, var)
 
+        # A model parameter whose default was written as a Python int (`a = 2`) arrives as a one-element integer
+        # constant of shape (1,).  Declared as `integer :: a(1)` it cannot take part in scalar arithmetic
+        # (`dy(1) = a*x`: rank mismatch) and cannot be fed from auto-07p's double precision PAR array.  Such an
+        # argument is a real scalar like every other parameter.
+        if dtype == 'integer' and v.name in args and v.is_constant and int(np.prod(v.shape)) == 1:
+            dtype = self._get_dtype('float')
+            shape = ''
+
         return dtype, intent, shape
 
     def _solve(self, solver: str, func: Callable, args: tuple, T: float, dt: float, dts: float, y0: np.ndarray,
@@ -1179,6 +1187,9 @@ class FortranBackend(BaseBackend):
         (``0.1``, ``1e-07``) is of default REAL kind, i.e. single precision, even when it is assigned to a
         ``double precision`` variable."""
         try:
+            arr = np.asarray(x)
+            if arr.ndim > 0 and arr.size == 1:      # one-element constants (shape (1,)) are scalars for STPNT
+                x = arr.reshape(-1)[0]
             s = repr(float(x))
         except (TypeError, ValueError):
             return f"{x}"
